@@ -1,0 +1,65 @@
+//go:build verif
+
+package store
+
+import (
+	"time"
+
+	"github.com/andres-erbsen/clock"
+	"github.com/uber-go/tally"
+
+	"github.com/uber/kraken/lib/store/base"
+	"github.com/uber/kraken/utils/diskspaceutil"
+)
+
+// Test-only seams for the C10 runtime monitor (/verif/harness/c10). Inert
+// without the `verif` build tag. Wrappers only: they expose the unexported
+// cleanup passes with an injected clock and disk-usage function.
+
+// VerifC10CleanupManager wraps a cleanupManager.
+type VerifC10CleanupManager struct{ m *cleanupManager }
+
+// VerifC10NewCleanupManager calls newCleanupManager.
+func VerifC10NewCleanupManager(clk clock.Clock, stats tally.Scope) *VerifC10CleanupManager {
+	return &VerifC10CleanupManager{newCleanupManager(clk, stats)}
+}
+
+// VerifC10ApplyDefaults calls CleanupConfig.applyDefaults.
+func VerifC10ApplyDefaults(c CleanupConfig) CleanupConfig { return c.applyDefaults() }
+
+// AddJob calls addJob (periodic background cleanup on the manager's clock).
+func (v *VerifC10CleanupManager) AddJob(tag string, config CleanupConfig, op base.FileOp) {
+	v.m.addJob(tag, config, op)
+}
+
+// Stop calls stop.
+func (v *VerifC10CleanupManager) Stop() { v.m.stop() }
+
+// Cleanup calls cleanup the way the periodic job does (with the
+// cachedInAgentPolicy) or without a custom policy.
+func (v *VerifC10CleanupManager) Cleanup(op base.FileOp, config CleanupConfig, withPolicy bool) (int64, error) {
+	if withPolicy {
+		return v.m.cleanup(op, config, cachedInAgentPolicy)
+	}
+	return v.m.cleanup(op, config, nil)
+}
+
+// ShouldAggro calls shouldAggro with an injected disk-usage function.
+func (v *VerifC10CleanupManager) ShouldAggro(
+	op base.FileOp, config CleanupConfig, usage func() (diskspaceutil.UsageInfo, error)) bool {
+	return v.m.shouldAggro(op, config, usage)
+}
+
+// TTLBasedCleanup calls ttlBasedCleanup with an injected disk-usage function.
+func (v *VerifC10CleanupManager) TTLBasedCleanup(
+	op base.FileOp, tti, ttl time.Duration, aggroUtilLowerThreshold int,
+	usage func() (diskspaceutil.UsageInfo, error)) (int64, error) {
+	return v.m.ttlBasedCleanup(op, tti, ttl, aggroUtilLowerThreshold, usage)
+}
+
+// CustomPolicyBasedCleanup calls customPolicyBasedCleanup with the
+// cachedInAgentPolicy and an injected disk-usage function.
+func (v *VerifC10CleanupManager) CustomPolicyBasedCleanup(
+	op base.FileOp, config CleanupConfig, usage func() (diskspaceutil.UsageInfo, error)) (int64, error) {
+	return v.m.customPolicyBasedCleanup(op, config, cachedInAgentPolicy, usage)
+}
